@@ -10,29 +10,29 @@ package refscript
 
 // Verification flags: same bit positions as Core's SCRIPT_VERIFY_* (script/interpreter.h).
 const (
-	FlagNone                              uint32 = 0
-	FlagP2SH                              uint32 = 1 << 0
-	FlagStrictEnc                         uint32 = 1 << 1
-	FlagDERSig                            uint32 = 1 << 2
-	FlagLowS                              uint32 = 1 << 3
-	FlagNullDummy                         uint32 = 1 << 4
-	FlagSigPushOnly                       uint32 = 1 << 5
-	FlagMinimalData                       uint32 = 1 << 6
-	FlagDiscourageUpgradableNops          uint32 = 1 << 7
-	FlagCleanStack                        uint32 = 1 << 8
-	FlagCheckLockTimeVerify               uint32 = 1 << 9
-	FlagCheckSequenceVerify               uint32 = 1 << 10
-	FlagWitness                           uint32 = 1 << 11
-	FlagDiscourageUpgradableWitnessProg   uint32 = 1 << 12
-	FlagMinimalIf                         uint32 = 1 << 13
-	FlagNullFail                          uint32 = 1 << 14
-	FlagWitnessPubKeyType                 uint32 = 1 << 15
-	FlagConstScriptCode                   uint32 = 1 << 16
-	FlagTaproot                           uint32 = 1 << 17
-	FlagDiscourageUpgradableTaprootVer    uint32 = 1 << 18
-	FlagDiscourageOpSuccess               uint32 = 1 << 19
-	FlagDiscourageUpgradablePubKeyType    uint32 = 1 << 20
-	AllFlags                              uint32 = 1<<21 - 1
+	FlagNone                            uint32 = 0
+	FlagP2SH                            uint32 = 1 << 0
+	FlagStrictEnc                       uint32 = 1 << 1
+	FlagDERSig                          uint32 = 1 << 2
+	FlagLowS                            uint32 = 1 << 3
+	FlagNullDummy                       uint32 = 1 << 4
+	FlagSigPushOnly                     uint32 = 1 << 5
+	FlagMinimalData                     uint32 = 1 << 6
+	FlagDiscourageUpgradableNops        uint32 = 1 << 7
+	FlagCleanStack                      uint32 = 1 << 8
+	FlagCheckLockTimeVerify             uint32 = 1 << 9
+	FlagCheckSequenceVerify             uint32 = 1 << 10
+	FlagWitness                         uint32 = 1 << 11
+	FlagDiscourageUpgradableWitnessProg uint32 = 1 << 12
+	FlagMinimalIf                       uint32 = 1 << 13
+	FlagNullFail                        uint32 = 1 << 14
+	FlagWitnessPubKeyType               uint32 = 1 << 15
+	FlagConstScriptCode                 uint32 = 1 << 16
+	FlagTaproot                         uint32 = 1 << 17
+	FlagDiscourageUpgradableTaprootVer  uint32 = 1 << 18
+	FlagDiscourageOpSuccess             uint32 = 1 << 19
+	FlagDiscourageUpgradablePubKeyType  uint32 = 1 << 20
+	AllFlags                            uint32 = 1<<21 - 1
 )
 
 // FlagNames maps the names used in Core's JSON test vectors to flag bits.
